@@ -93,10 +93,21 @@ def scenario(threads):
         log = {"sent": {}, "got": {}, "empty": {}, "refused": [], "socks": {}, "hub": hub}
         make.log = log
         make.snapshot = lambda: (frozenset(hub._open_sockets), frozenset(hub._remote_sockets), tuple(sorted((k, tuple(map(str, v))) for k, v in hub._messages.items() if v)),
-                                 frozenset(hub._recv_callbacks), tuple(sorted((k, tuple(map(str, v))) for k, v in log["got"].items())), len(log["refused"]),
+                                 frozenset(hub._recv_callbacks), _flags(hub), tuple(sorted((k, tuple(map(str, v))) for k, v in log["got"].items())), len(log["refused"]),
                                  tuple(sorted((k, tuple(v)) for k, v in log["empty"].items())))
         return [(t[0], endpoint(S, log, t[1], t[2], t[3], t[4] if len(t) > 4 else 0, t[5] if len(t) > 5 else "ThreadSocket")) for t in threads]
     return make
+
+
+def _flags(hub):
+    """state of every threading.Event-like object the hub keeps (directly or in a dict): part of what a waiting thread can observe"""
+    out = []
+    for name, v in sorted(vars(hub).items()):
+        if hasattr(v, "is_set"):
+            out.append((name, v.is_set()))
+        elif isinstance(v, dict):
+            out.extend((name, str(k), e.is_set()) for k, e in sorted(v.items(), key=lambda kv: str(kv[0])) if hasattr(e, "is_set"))
+    return tuple(out)
 
 
 def check_delivery(make):
@@ -495,6 +506,23 @@ def build():
         ctx.check("non-blocking receive on an empty queue raises RuntimeError", isinstance(out[1], RuntimeError))
         ctx.check("and leaves the queue empty", ctx.eq(ctx.len(w.qk.q), 0))
     R.add("seq[hub.recv non-blocking on empty]", kind="seq", samples=10)(f_nb_empty)
+
+    def f_nb_empty_timeout(ctx):
+        """... also when a timeout is passed along with block=False: emptiness is reported at once, without waiting"""
+        w = World(ctx)
+        ctx.assume(ctx.eq(ctx.len(w.qk.q), 0))
+        gen = ctx.call(w.hub.recv, w.me, False, 0.05)
+        slept = 0
+        out = None
+        for _ in range(200):
+            out = ctx.attempt(next, gen)
+            if out[0] == "exc":
+                break
+            if out[1][0] == "sleep":
+                slept += 1
+        ctx.check("non-blocking receive with a timeout on an empty queue raises RuntimeError", out is not None and out[0] == "exc" and isinstance(out[1], RuntimeError))
+        ctx.check("... at once (it never goes to sleep)", slept == 0)
+    R.add("seq[hub.recv non-blocking on empty, timeout given]", kind="seq", samples=10)(f_nb_empty_timeout)
 
     def mk_send(cb):
         def f(ctx):
